@@ -21,6 +21,7 @@
 #include <cstring>
 #include <functional>
 #include <mutex>
+#include <shared_mutex>
 #include <random>
 #include <thread>
 #include <type_traits>
@@ -77,6 +78,101 @@ public:
     template <class Pred>
     void wait(::std::unique_lock<Mutex>& lk, Pred pred) {
         while (!pred()) wait(lk);
+    }
+    // timed waits run in simulated time: the wait ends by a notification, a spurious wake-up, or
+    // "the deadline passed", which happens when no thread can run any more (time jumps forward)
+    template <class Rep, class Period>
+    ::std::cv_status wait_for(::std::unique_lock<Mutex>& lk, const ::std::chrono::duration<Rep, Period>&) {
+        Mutex* m = lk.mutex();
+        m->real_.unlock();
+        bool timed_out = rt_cv_wait_timed(&st_, &m->st_);
+        m->real_.lock();
+        rt_cv_waited(&st_);
+        return timed_out ? ::std::cv_status::timeout : ::std::cv_status::no_timeout;
+    }
+    template <class Rep, class Period, class Pred>
+    bool wait_for(::std::unique_lock<Mutex>& lk, const ::std::chrono::duration<Rep, Period>& d, Pred pred) {
+        while (!pred())
+            if (wait_for(lk, d) == ::std::cv_status::timeout) return pred();
+        return true;
+    }
+    template <class Clock, class Dur>
+    ::std::cv_status wait_until(::std::unique_lock<Mutex>& lk, const ::std::chrono::time_point<Clock, Dur>&) {
+        return wait_for(lk, ::std::chrono::seconds(1));
+    }
+    template <class Clock, class Dur, class Pred>
+    bool wait_until(::std::unique_lock<Mutex>& lk, const ::std::chrono::time_point<Clock, Dur>&, Pred pred) {
+        return wait_for(lk, ::std::chrono::seconds(1), pred);
+    }
+};
+
+// Further primitives a change to tlx might start using.  They are modelled on top of the two above so
+// that such code still runs under the scheduler instead of blocking for real (which would hang a run).
+class RecursiveMutex {
+    Mutex m_;
+    int owner_ = -1;      // only read/written by the owner or under m_
+    int depth_ = 0;
+
+public:
+    void lock() {
+        if (owner_ == rt_tid() && depth_ > 0) { ++depth_; return; }
+        m_.lock(); owner_ = rt_tid(); depth_ = 1;
+    }
+    bool try_lock() {
+        if (owner_ == rt_tid() && depth_ > 0) { ++depth_; return true; }
+        if (!m_.try_lock()) return false;
+        owner_ = rt_tid(); depth_ = 1; return true;
+    }
+    void unlock() { if (--depth_ == 0) { owner_ = -1; m_.unlock(); } }
+};
+
+class TimedMutex : public Mutex {
+public:
+    template <class Rep, class Period>
+    bool try_lock_for(const ::std::chrono::duration<Rep, Period>&) { return try_lock(); }
+    template <class Clock, class Dur>
+    bool try_lock_until(const ::std::chrono::time_point<Clock, Dur>&) { return try_lock(); }
+};
+
+// readers are serialised like writers (fewer interleavings, never an illegal one)
+class SharedMutex : public Mutex {
+public:
+    void lock_shared() { lock(); }
+    bool try_lock_shared() { return try_lock(); }
+    void unlock_shared() { unlock(); }
+};
+
+class CondVarAny {
+    Mutex im_;
+    CondVar cv_;
+
+public:
+    void notify_one() noexcept { { ::std::lock_guard<Mutex> g(im_); } cv_.notify_one(); }
+    void notify_all() noexcept { { ::std::lock_guard<Mutex> g(im_); } cv_.notify_all(); }
+    template <class Lock>
+    void wait(Lock& lk) {
+        ::std::unique_lock<Mutex> il(im_);
+        lk.unlock();
+        cv_.wait(il);
+        il.unlock();
+        lk.lock();
+    }
+    template <class Lock, class Pred>
+    void wait(Lock& lk, Pred pred) { while (!pred()) wait(lk); }
+    template <class Lock, class Rep, class Period>
+    ::std::cv_status wait_for(Lock& lk, const ::std::chrono::duration<Rep, Period>& d) {
+        ::std::unique_lock<Mutex> il(im_);
+        lk.unlock();
+        ::std::cv_status r = cv_.wait_for(il, d);
+        il.unlock();
+        lk.lock();
+        return r;
+    }
+    template <class Lock, class Rep, class Period, class Pred>
+    bool wait_for(Lock& lk, const ::std::chrono::duration<Rep, Period>& d, Pred pred) {
+        while (!pred())
+            if (wait_for(lk, d) == ::std::cv_status::timeout) return pred();
+        return true;
     }
 };
 
@@ -172,6 +268,17 @@ public:
     template <class U> T operator&=(U d) noexcept { return fetch_and(d) & d; }
     template <class U> T operator|=(U d) noexcept { return fetch_or(d) | d; }
     bool is_lock_free() const noexcept { return a_.is_lock_free(); }
+};
+
+class AtomicFlag {
+    Atomic<bool> f_;
+
+public:
+    AtomicFlag() noexcept : f_(false) {}
+    AtomicFlag(const AtomicFlag&) = delete;
+    bool test_and_set(::std::memory_order o = ::std::memory_order_seq_cst) noexcept { return f_.exchange(true, o); }
+    void clear(::std::memory_order o = ::std::memory_order_seq_cst) noexcept { f_.store(false, o); }
+    bool test(::std::memory_order o = ::std::memory_order_seq_cst) const noexcept { return f_.load(o); }
 };
 
 class Thread {
@@ -275,6 +382,12 @@ using namespace ::std;
 using thread = ::sim::Thread;
 using mutex = ::sim::Mutex;
 using condition_variable = ::sim::CondVar;
+using condition_variable_any = ::sim::CondVarAny;
+using recursive_mutex = ::sim::RecursiveMutex;
+using timed_mutex = ::sim::TimedMutex;
+using shared_mutex = ::sim::SharedMutex;
+using shared_timed_mutex = ::sim::SharedMutex;
+using atomic_flag = ::sim::AtomicFlag;
 template <class T>
 using atomic = ::sim::Atomic<T>;
 using minstd_rand = ::sim::SeededMinstd;
@@ -282,6 +395,10 @@ inline void atomic_thread_fence(::std::memory_order o) noexcept { ::sim::atomic_
 namespace this_thread {
 using namespace ::std::this_thread;
 inline void yield() noexcept { ::sim::rt_yield(); }
+template <class Rep, class Period>
+inline void sleep_for(const ::std::chrono::duration<Rep, Period>&) { ::sim::rt_sleep(); }
+template <class Clock, class Dur>
+inline void sleep_until(const ::std::chrono::time_point<Clock, Dur>&) { ::sim::rt_sleep(); }
 } // namespace this_thread
 } // namespace std
 } // namespace tlx
